@@ -219,7 +219,8 @@ def finalize(session, prop, tier, seed, expected, replayers, kf_classes,
             'checker_cmd': checker_cmd or
             'python3-vt -m pyvc check %s --tier %s' % (prop, tier),
             'trusted_base': sorted(S.used_axioms) + [
-                'pyvc symbolic interpreter (engine-vs-CPython differential in '
+                'pyvc symbolic interpreter (fidelity to CPython is trusted; guarded '
+                'by native batteries, leaf oracles and model validation in the '
                 'thorough tier)', 'z3/cvc5'],
             'distinct_obligation_names': len(samples),
             # contracted / entry functions, plus every repo function whose
